@@ -150,7 +150,7 @@ fn c08() -> (bool, String) {
 }
 
 fn c04() -> (bool, String) {
-    let reports: [Result<(bool, bool), u8>; 5] = [Ok((false, false)), Ok((false, true)), Ok((true, false)), Ok((true, true)), Err(0x27)];
+    let reports: [Result<(bool, bool), u8>; 8] = [Ok((false, false)), Ok((false, true)), Ok((true, false)), Ok((true, true)), Err(0x27), Err(0x2f), Err(0x3a), Err(0x2d)];
     for create in [true, false] {
         for up in [true, false] { for uv in [true, false] { for cap in [None, Some(false), Some(true)] { for rep in reports { for present in [true, false] {
             let store = RefStore::new(2);
@@ -190,7 +190,7 @@ fn c04() -> (bool, String) {
         let consent = match rep { Ok((p, v)) => (!up || p) && (!uv || v) && !(uv && cap != Some(true)), Err(_) => false };
         if !consent && outcome(true) != outcome(false) { return (true, format!("assert up={up} uv={uv} capability={cap:?} report={rep:?}: outcome differs with / without a matching credential while consent is missing")); }
     } } } }
-    (false, "consent truth table ok (2 ops x up x uv x 3 capabilities x 5 reports x credential present/absent)".into())
+    (false, "consent truth table ok (2 ops x up x uv x 3 capabilities x 8 reports x credential present/absent)".into())
 }
 
 fn c05() -> (bool, String) {
@@ -265,10 +265,15 @@ fn c11() -> (bool, String) {
         let want = match disc { 0 => rk, 1 => false, _ => true };
         let has = store.items.lock().unwrap()[0].user_handle.is_some();
         if has != want { return (true, format!("capability {disc} rk={rk}: user handle stored={has}, expected {want}")); }
-        let resp = block_on(a.get_assertion(ga_request("a.example", None, true, true)));
-        match resp { Ok(x) => if x.user.is_some() != has { return (true, format!("capability {disc} rk={rk}: assertion returns user handle={}, stored={has}", x.user.is_some())); }, Err(e) => return (true, format!("assertion failed: {e:?}")) }
+        let id = store.items.lock().unwrap()[0].credential_id.to_vec();
+        for (uv_req, verified) in [(true, true), (false, true), (false, false)] { for with_list in [false, true] {
+            let u = Uv { capability: Some(true), report: Ok((true, verified)), shown: Default::default() };
+            let mut b = Authenticator::new(Aaguid::new_empty(), store.clone(), u);
+            let resp = block_on(b.get_assertion(ga_request("a.example", if with_list { Some(vec![desc(&id)]) } else { None }, true, uv_req)));
+            match resp { Ok(x) => if x.user.is_some() != has { return (true, format!("capability {disc} rk={rk} uv requested={uv_req} performed={verified} allow list={with_list}: assertion returns user handle={}, stored={has}", x.user.is_some())); }, Err(e) => return (true, format!("assertion failed: {e:?}")) }
+        } }
     } }
-    (false, "discoverability table ok (3 capabilities x rk)".into())
+    (false, "discoverability table ok (3 capabilities x rk x requested/performed verification x allow list)".into())
 }
 
 /// C18: run `arg` = get_info | make_credential | get_assertion through the trait; a child process is used by the
